@@ -229,6 +229,8 @@ def check(rep, F, tier, replay=None):
         rep.floor("calls consuming the collected Byron addresses in fake_full_tx", 4, n_b)
     from ruleutil import ref_size_pass_rule
     ref_size_pass_rule(rep, F)
+    from ruleutil import cert_cred_rule
+    cert_cred_rule(rep, F)
     return rep.finish(
         EXPLANATION,
         ["tables/c18_cert_signers.json transcribes the ledger's required-key rules", "fake witnesses have real sizes (fakes.rs)", "Ed25519KeyHashes de-duplicates (C16)"],
